@@ -96,6 +96,9 @@ class Effects:
                             b = _base_name(el)
                             if b and b in al:
                                 direct |= al[b]
+                        elif isinstance(n, ast.AugAssign) and isinstance(el, ast.Name) and _array_param(f, {el.id}):
+                            # `a *= k` on an array PARAMETER is an in-place update of the caller's array (a local holding an element is a scalar)
+                            direct.add(el.id)
                 if isinstance(n, ast.Call) and isinstance(n.func, ast.Attribute) and n.func.attr in MUTATORS:
                     b = _base_name(n.func.value)
                     if b and b in al:
@@ -145,6 +148,15 @@ class Effects:
                 if p in m:
                     out.add(i)
         return out
+
+
+def _array_param(f, names) -> bool:
+    """is one of `names` a parameter of f annotated as an array (NDArray / ndarray / np.ndarray)?"""
+    a = f.node.args
+    for p in a.posonlyargs + a.args:
+        if p.arg in names and p.annotation is not None and "array" in ast.unparse(p.annotation).lower():
+            return True
+    return False
 
 
 def get_effects(prog: Program) -> Effects:
